@@ -14,6 +14,7 @@ import (
 	"encoding/json"
 	"encoding/pem"
 	"fmt"
+	"net/http"
 	"net/url"
 	"reflect"
 	"sort"
@@ -25,7 +26,12 @@ import (
 )
 
 // verifLogin performs the real password login and returns the session cookie.
-func verifLogin(e *verifEnv, user, password string) (string, *verifResp) {
+// verifDoer is whatever executes a built request: the in-process environment or a real daemon (engine B).
+type verifDoer interface {
+	Do(req *http.Request) *verifResp
+}
+
+func verifLogin(e verifDoer, user, password string) (string, *verifResp) {
 	q := verifReq{Method: "POST", Path: "/api/v0/login",
 		Form: url.Values{"username": {user}, "password": {password}}}
 	resp := e.Do(q.Build())
@@ -246,7 +252,7 @@ func verifCheckX509UserCert(c *x509.Certificate, user string, submitted crypto.P
 func verifCk(cookie string) map[string]string { return map[string]string{"auth_cookie": cookie} }
 
 // verifEnrollTOTP runs the real generate + validate flow and returns the secret.
-func verifEnrollTOTP(e *verifEnv, cookie string) (string, error) {
+func verifEnrollTOTP(e verifDoer, cookie string) (string, error) {
 	r := e.Do(verifReq{Method: "POST", Path: "/totp/GenerateNew/", Cookies: verifCk(cookie)}.Build())
 	if r.Code != 200 {
 		return "", fmt.Errorf("GenerateNew: %d %s", r.Code, firstLines(string(r.Body), 2))
@@ -264,7 +270,7 @@ func verifEnrollTOTP(e *verifEnv, cookie string) (string, error) {
 }
 
 // verifEnrollU2F runs the real register request/response flow with a soft token.
-func verifEnrollU2F(e *verifEnv, cookie, user string, tok *verifU2FToken) error {
+func verifEnrollU2F(e verifDoer, cookie, user string, tok *verifU2FToken) error {
 	r := e.Do(verifReq{Method: "GET", Path: "/u2f/RegisterRequest/" + user, Cookies: verifCk(cookie)}.Build())
 	if r.Code != 200 {
 		return fmt.Errorf("RegisterRequest: %d %s", r.Code, firstLines(string(r.Body), 2))
@@ -295,7 +301,7 @@ type verifU2FSignReq struct {
 }
 
 // verifU2FBegin asks for a sign challenge for the session's user.
-func verifU2FBegin(e *verifEnv, cookie string) (*verifU2FSignReq, *verifResp) {
+func verifU2FBegin(e verifDoer, cookie string) (*verifU2FSignReq, *verifResp) {
 	r := e.Do(verifReq{Method: "GET", Path: "/u2f/SignRequest", Cookies: verifCk(cookie)}.Build())
 	if r.Code != 200 {
 		return nil, r
@@ -307,17 +313,17 @@ func verifU2FBegin(e *verifEnv, cookie string) (*verifU2FSignReq, *verifResp) {
 	return &req, r
 }
 
-func verifU2FFinish(e *verifEnv, cookie string, resp map[string]string) *verifResp {
+func verifU2FFinish(e verifDoer, cookie string, resp map[string]string) *verifResp {
 	body, _ := jsonMarshal(resp)
 	return e.Do(verifReq{Method: "POST", Path: "/u2f/SignResponse", RawBody: body, RawCT: "application/json", Cookies: verifCk(cookie)}.Build())
 }
 
-func verifAdminAddUser(e *verifEnv, adminCookie, user string) *verifResp {
+func verifAdminAddUser(e verifDoer, adminCookie, user string) *verifResp {
 	return e.Do(verifReq{Method: "POST", Path: "/admin/addUser", Form: url.Values{"username": {user}}, Cookies: verifCk(adminCookie)}.Build())
 }
 
 // verifAdminBootstrapOTP returns the one-time value an administrator obtains for user.
-func verifAdminBootstrapOTP(e *verifEnv, adminCookie, user, duration string) (string, *verifResp) {
+func verifAdminBootstrapOTP(e verifDoer, adminCookie, user, duration string) (string, *verifResp) {
 	f := url.Values{"username": {user}}
 	if duration != "" {
 		f.Set("duration", duration)
